@@ -16,4 +16,5 @@ def run(ctx):
             if fs != "default":
                 r.rule += "@" + fs
         out += res
+    out.append(E.normaliser_rule(ctx.syn, "C17"))
     return out
